@@ -91,6 +91,7 @@ def flags() -> Any:
                 self._boom('resolve_dns')
                 return None, None
         _F['pid'] = os.getpid()
+        _F['explode'] = VfExplode
         _F['f'] = K.make_flags(['--threadless', '--enable-web-server', '--enable-static-server', '--static-server-dir', c07.static_dir(),
                                 '--enable-reverse-proxy'], plugins=[c07.route_plugin(), c04._reverse_plugin(), VfExplode])
     return _F['f']
@@ -151,6 +152,11 @@ def build_world(c: Dict[str, Any], alone: Optional[str] = None) -> Tuple[K.World
                 peer: K.Peer = K.Peer('adv', out=data, script=[['send', len(p)] for p in pieces], finish=adv.get('finish'))
             else:
                 peer = make_client('adv', conversation(adv['role'], 'adv', adv.get('explode')))
+                if adv.get('slow_reader'):
+                    # never reads its response: the proxy keeps output pending for it for as long as it lives
+                    peer.read_in_drain = False
+                    if isinstance(peer, ReactiveClient):
+                        peer.act = (lambda p=peer: (p._send_some(None) if p.seg_i >= len(p.segments) else ReactiveClient.act_no_read(p)))     # type: ignore[method-assign]
             plan = None
             w.add_client(peer, plan=plan)
             parts['adv'] = peer
@@ -172,8 +178,15 @@ def build_world(c: Dict[str, Any], alone: Optional[str] = None) -> Tuple[K.World
         role = c['adv']['role'] if owner == 'adv' and c['adv']['kind'] != 'bytes' else canary_role
         name = 'origin:%s#%d' % (host, idx)
         # responses must not depend on connection numbering (it differs between the alone run and the shared run)
-        o: K.Peer = echo_origin(name) if (role == 'tunnel' and addr[1] == 443) else \
-            ReactiveOrigin(name, responder=lambda o_, raw, n: tag_response(host, n, raw))
+        if owner == 'adv' and c['adv'].get('slow_reader'):
+            # a large answer, then the origin closes: the upstream side of the adversary is over while its client side
+            # still has megabytes pending
+            o: K.Peer = ReactiveOrigin(name, responder=lambda o_, raw, n: tag_response(host, n, raw, extra_body=stream(400000, 9), close=True),
+                                       finish='close_after_rx')
+            o.expect_rx = 1
+        else:
+            o = echo_origin(name) if (role == 'tunnel' and addr[1] == 443) else \
+                ReactiveOrigin(name, responder=lambda o_, raw, n: tag_response(host, n, raw))
         parts['origins'].setdefault(owner, []).append(o)
         if name not in world.order:
             world.order.append(name)
@@ -287,8 +300,9 @@ def run_case(c: Dict[str, Any], dry: bool = False) -> Dict[str, Any]:
         p = make_client('canary2', conv)
         world.add_client(p, addr=('127.0.0.1', 50002))
         parts['canary2'] = p
-        # the adversary is over by now as far as the harness is concerned
-        if advp.sock is not None and not advp.closed:
+        # normally the adversary is over by now as far as the harness is concerned; a lingering adversary (slow reader)
+        # stays connected while the subsequent connection is accepted and served
+        if advp.sock is not None and not advp.closed and not c['adv'].get('slow_reader'):
             advp.do_close()
     w.at_quiescence = [open_canary2]
     w.run_local()
@@ -380,6 +394,12 @@ def run_shard(spec: Dict[str, Any], seed: int, acc: Any) -> None:
                 if spec['adv_role'] != 'web':
                     for cf in CONNECT_FAULTS:
                         cases.append(dict(base, fault={'type': 'connect', 'what': cf}))
+                if spec['adv_role'] == 'forward':
+                    slow = dict(base, adv={'kind': 'conv', 'role': 'forward', 'slow_reader': True})
+                    cases.append(slow)
+                    for k_ in range(0, nacts, 2):
+                        for pf in ('origin_close', 'origin_reset', 'client_shut'):
+                            cases.append(dict(slow, fault={'type': 'peer', 'k': k_, 'what': pf}))
                 for h in HOOKS:
                     if (h == 'web_route') == (spec['adv_role'] == 'web') and spec['adv_role'] in ('forward', 'tunnel', 'web'):
                         cases.append(dict(base, adv={'kind': 'conv', 'role': spec['adv_role'], 'explode': h}))
@@ -418,7 +438,8 @@ def run_shard(spec: Dict[str, Any], seed: int, acc: Any) -> None:
                     fault = {'type': 'peer', 'k': draw(st.integers(0, 12)), 'what': draw(st.sampled_from(PEER_FAULTS))}
                 else:
                     fault = {'type': 'connect', 'what': draw(st.sampled_from(CONNECT_FAULTS))}
-                return {'canary': draw(st.sampled_from(ROLES)), 'adv': {'kind': 'conv', 'role': arole}, 'fault': fault,
+                return {'canary': draw(st.sampled_from(ROLES)), 'adv': {'kind': 'conv', 'role': arole, 'slow_reader': arole == 'forward' and draw(st.booleans())},
+                        'fault': fault,
                         'schedule': draw(st.lists(st.integers(0, 4), max_size=60))}
 
         def chk(c: Dict[str, Any]) -> List[Any]:
